@@ -1,25 +1,257 @@
-"""Per-property configuration of the driver (builds to run, evidence texts)."""
+"""Per-property configuration of the driver (builds to run, evidence and manifest texts)."""
 
 COMMON_ASSUMPTIONS = [
     "the BigUint shadow model (num-bigint arithmetic, transcription of ristretto.sage's unoptimised spec functions) "
     "is right; it is self-tested on every run against the repository's sage vectors (16 generator multiples, "
     "8 Elligator vectors), r*G = identity and Miller-Rabin primality of p, q, r",
     "verdicts concern the executions listed under coverage only (sampled universal quantifier)",
-    "harness builds decaf377 from /repo's working tree with --cfg decaf377_verif (hooks only add accessors)",
+    "harness builds decaf377 from /repo's working tree with --cfg decaf377_verif (hooks only add accessors / a hint override)",
 ]
+DISTINCT = " distinct_nontrivial counts distinct hashed case tuples per build run (summed over runs)."
 
 PROPS = {
+    "C01": {
+        "builds": ["ark", "min"], "level": "exploration", "design_ref": "DESIGN.md §3 C01",
+        "monitor_profile": [("ark", "C01"), ("min", "C01")],
+        "technique": "runtime round-trip monitor with a BigUint spec decoder/encoder as referee, over a shadowed element zoo "
+                     "(both coset members, projective rescalings via the coordinate hook), registers of random straight-line "
+                     "programs, and structured + random 32-byte strings",
+        "rule": "forward: element zoo (constants, small-s decodes, Elligator images, multiples, both coset members, rescalings) and "
+                "every register of random operation programs -> decode(encode(E)) must succeed, be == E and denote the model "
+                "element; backward: produced encodings, structured near-misses (s+kq aliases, q-s, all 256 bit flips, top bits, "
+                "boundaries) and random strings -> any accepted string must re-encode to itself and denote decodeSpec. "
+                "Trivial: identity representatives (forward) / strings the spec rejects (backward)." + DISTINCT,
+        "text": "Reference-model round-trip monitor over executions of the real encoder/decoder in both builds; elements are "
+                "products of arithmetic and arbitrary representatives, not only fresh decodes. Sampled, not exhaustive over 2^256.",
+        "note": "trusted: BigUint model incl. encodeSpec/decodeSpec (self-tested on the sage vectors each run), coordinate hook.",
+    },
+    "C02": {
+        "builds": ["ark", "min"], "level": "exploration", "design_ref": "DESIGN.md §3 C02",
+        "technique": "runtime differential monitor: every decoding entry point against the BigUint specification decoder "
+                     "(verdict, error kind, element) and against each other, on structured near-misses and all slice lengths",
+        "rule": "strings: for ~100 valid s their s+q / s+2q aliases, q-s, all 256 single-bit flips, top-three-bit variants, "
+                "s+1, s+2; boundary values q-1, q, q+1, 2^253, 2^255, 2^256-1, 1; random and random-masked strings; slices of "
+                "length 0..=80 (+100,128,200,1000). Every entry point (11 in the arkworks build incl. stream deserialisers of "
+                "Element/AffinePoint/Encoding, 7 in the minimal build) must answer exactly as decodeSpec o canonical parse. "
+                "A case = one string; none is trivial." + DISTINCT,
+        "text": "Specification-decoder monitor: accept/reject verdict, error kind and decoded element of all decoding entry points "
+                "are compared with an independent transcription of decodeSpec on hostile strings. Compress::No / Validate::No modes "
+                "are unimplemented!() for every input and deliberately not exercised.",
+        "note": "trusted: BigUint decodeSpec (self-tested). Stream readers: a short reader is a length error, a longer one is "
+                "judged on its first 32 bytes and must consume exactly 32.",
+    },
+    "C03": {
+        "builds": ["ark", "min"], "level": "exploration", "design_ref": "DESIGN.md §3 C03",
+        "technique": "runtime monitor comparing every encoder (16 in the arkworks build, 6 in the minimal one) with BigUint encodeSpec "
+                     "on all representations of an element, plus all-pairs injectivity checks",
+        "rule": "every zoo element and program register, each as both coset members x projective rescalings, through every encoder "
+                "(vartime_compress, field form, From impls, CanonicalSerialize of Element/AffinePoint/Encoding, Debug/Display hex, "
+                "ToConstraintField): bytes must equal encodeSpec(model element), top three bits clear; all pairs inside batches: "
+                "== <=> bytes equal <=> model equal. Trivial: identity representatives." + DISTINCT,
+        "text": "Reference-encoder monitor over every representation reachable by arithmetic or constructed through the hook.",
+        "note": "trusted: BigUint encodeSpec (self-tested), coordinate hook.",
+    },
     "C04": {
-        "builds": ["ark", "min"],
-        "level": "exploration",
+        "builds": ["ark", "min"], "level": "exploration", "design_ref": "DESIGN.md §3 C04",
+        "monitor_profile": [("ark", "C04"), ("min", "C04")],
+        "technique": "runtime reference-model monitor (shadow BigUint group law) over a form catalogue x hostile operand zoo + random "
+                     "straight-line programs; structural-invariant hook on every result",
         "rule": "every catalogued operator form (name listed under forms) x operand-class matrix (10 partner relations "
                 "x shadowed element zoo incl. both coset members and projective rescalings), sums over iterators, "
                 "algebraic laws through the library's own ==, and random straight-line programs mixing all forms; "
                 "each result is judged against the model group law (structural invariant via coordinate hook, "
                 "denotation up to the coset, and vartime_compress bytes == encodeSpec). A case is the tuple "
-                "(form, model operands, projective scalings); trivial = all operands are identity representatives. "
-                "distinct_nontrivial is counted per build run and summed.",
-        "assumptions": COMMON_ASSUMPTIONS,
-        "monitor_profile": [("ark", "C04"), ("min", "C04")],
+                "(form, model operands, projective scalings); trivial = all operands are identity representatives." + DISTINCT,
+        "text": "Reference-model monitor over executions of the real operator impls: every catalogued form of add/sub/neg/double/sum "
+                "in both builds is run on an operand-class matrix (identity, 2-torsion representative, P with -P, P with itself, both "
+                "coset members, projective rescalings) and inside random straight-line programs; every result is compared with the "
+                "textbook twisted-Edwards law computed in an independent BigUint model. Held on the executions counted; not a proof.",
+        "note": "trusted: the BigUint model (self-tested against the repo's sage vectors on every run), the coordinate hook "
+                "accessors, rustc. The structured operand-class x form matrix is exhaustive over itself; operands are sampled.",
+    },
+    "C05": {
+        "builds": ["ark", "min"], "level": "exploration", "design_ref": "DESIGN.md §3 C05",
+        "monitor_profile": [("min", "C05")],
+        "technique": "runtime reference-model monitor: every scalar-multiplication form against model double-and-add by the integer "
+                     "scalar (no reduction), scalar zoo x element classes, module laws, MSM sizes across window boundaries, order checks",
+        "rule": "scalar zoo as integers (0,1,2,r-1,(r+-1)/2, 2^k, all-ones limbs, r, r+1, 2r, 2^256-1, 2^320, 2^512-1, r^2, random) x "
+                "element classes (G, P, other coset member, identities, rescaled) x every Mul/MulAssign form, mul_bigint, "
+                "scalar_mul(_vartime) with extra leading-zero limbs and the empty slice; r*P = identity for every zoo element; "
+                "additivity/multiplicativity laws; MSM forms at sizes 0..=100 (thorough: 1000). Trivial: identity operand or k = 0." + DISTINCT,
+        "text": "Reference-model monitor: the k-fold sum is computed independently by the integer k, so the group order is checked, "
+                "not assumed.",
+        "note": "trusted: BigUint model (projective double-and-add validated against the affine law in the self-test).",
+    },
+    "C06": {
+        "builds": ["ark", "min"], "level": "exploration", "design_ref": "DESIGN.md §3 C06",
+        "monitor_profile": [("ark", "C06")],
+        "technique": "runtime validity monitor on every public constructor / sampler / deserialiser / conversion: library round trip "
+                     "plus model membership in 2E (r*P identity) through the coordinate hook; hostile byte strings and degenerate RNG streams",
+        "rule": "from_random_bytes on the byte-string zoo (lengths 0..=200, canonical / non-canonical values, arkworks-style and "
+                "decaf-style encodings of valid points, random 31/32/33/48/64-byte strings); samplers under ChaCha, all-zero, all-ones, "
+                "counter and short-period RNGs (budgeted: a sampler that produces nothing within 64 KiB is counted, not judged); "
+                "constants, Default, zero(), generator(); deserialisers, into_affine/into_group, normalize_batch, "
+                "batch_convert_to_mul_base, clear_cofactor, mul_by_cofactor_to_group on program registers; outputs of decode and "
+                "hash-to-group. None is trivial." + DISTINCT,
+        "text": "Invariant monitor: every element handed out by a public constructor must round-trip through its encoding and lie in "
+                "the group according to the model.",
+        "note": "trusted: BigUint model scalar multiplication for the r*P test; minimal build exposes only constants, decode and Elligator.",
+    },
+    "C07": {
+        "builds": ["ark", "min"], "level": "exploration", "design_ref": "DESIGN.md §3 C07",
+        "monitor_profile": [("ark", "C07"), ("min", "C07")],
+        "technique": "runtime reference-model monitor: encode_to_curve / hash_to_curve against the unoptimised elligatorSpec "
+                     "(Euler criterion, Tonelli-Shanks, explicit divisions) on the full field zoo + random inputs",
+        "rule": "r0 over the structured Fq zoo (0, +-1, 2^k, p-2^k, limb patterns, Montgomery artefacts, roots of unity of every "
+                "order 2^k, small ints) + random; each judged against elligatorSpec(r0), map(r0) == map(-r0), output in 2E (sampled); "
+                "both branches (n1 square / non-square) must be reached; two-input hash against map(a)+map(b) incl. a=b, a=-b. "
+                "Trivial: r0 = 0." + DISTINCT,
+        "text": "Reference-model monitor against an independent transcription of the specification's unoptimised map.",
+        "note": "trusted: BigUint elligatorSpec (self-tested on the 8 sage vectors). den = 0 in the spec would be logged as "
+                "spec-undefined, never judged (it is unreachable).",
+    },
+    "C08": {
+        "builds": ["ark", "min"], "level": "exploration", "design_ref": "DESIGN.md §3 C08",
+        "technique": "runtime coherence monitor: all pairs inside families of equal-but-differently-represented elements "
+                     "(== vs encoding vs model vs Hash with DefaultHasher and a byte-recording hasher) and all identity predicates on "
+                     "every representation of the identity",
+        "rule": "for every zoo element P: family {P, other coset member, rescalings, -(-P), (r-1)*(-P), P+Q-Q, 2P-P, decode(encode), "
+                "affine round trips} plus unequal elements; identity family {IDENTITY, default, zero, (0,-1), lambda*(0,+-1), "
+                "Q+(-1)Q, Q-Q, 0*Q, r*Q, decode(0)}; all ordered pairs: == <=> equal encodings <=> model equal, equal => equal "
+                "hashes (Element and AffinePoint); every identity predicate must be all-true on the identity family and all-false "
+                "elsewhere; same on program registers. No case is trivial." + DISTINCT,
+        "text": "Coherence monitor over pairs that compare equal but have different internal representatives.",
+        "note": "only `equal => equal hash` is demanded; hash values are never compared with anything fixed. Minimal build: == / "
+                "is_identity part (it has no Hash / Zero).",
+    },
+    "C09": {
+        "builds": ["ark", "min"], "level": "exploration", "design_ref": "DESIGN.md §3 C09",
+        "technique": "runtime contract monitor with chosen 2-primary discrete logs: the workload constructs ratios g^(e/M) * u^(2^47) "
+                     "so that every value of every 8-bit window of e and of -e (all table rows) occurs; Euler-criterion oracle",
+        "rule": "ratios whose 2-primary exponent e enumerates every value of every 8-bit window at offsets 0,7,8,...,40 (and of -e), "
+                "all-zero / all-ones / single-digit / carry patterns, pure roots of unity of every order 2^k, ratio 1, zeta^k, zero "
+                "operands, zoo pairs and random pairs; (num,den) = (ratio*den, den) and (1, 1/ratio). Flag must equal Euler(num/den), "
+                "y^2*den must equal num resp. zeta*num; window coverage (measured model-side by a discrete log of what was actually "
+                "presented) must be complete or the run is inconclusive. Field::sqrt/legendre of Fq, Fr, Fp against Euler. "
+                "Trivial: num = den = 0." + DISTINCT,
+        "text": "Contract monitor whose inputs are engineered to hit every lookup-table row of the table-driven square root; the "
+                "minimal build's constant-time Tonelli-Shanks gets the same inputs.",
+        "note": "trusted: BigUint Euler criterion; the sign of y is free and never compared.",
+        "monitor_profile": [("ark", "C09")],
+    },
+    "C10": {
+        "builds": ["ark", "min"], "level": "exploration", "design_ref": "DESIGN.md §3 C10",
+        "monitor_profile": [("ark", "C10"), ("min", "C10")],
+        "technique": "runtime reference-model monitor: every operator/method form of Fq, Fr, Fp (both backends, plus the public 32-bit Fr "
+                     "backend inside the arkworks build) against BigUint arithmetic on structured limb-pattern zoos",
+        "rule": "per field: 24 operator forms (+,-,*,/ x value/&/&mut x binary/assign), inherent add/sub/mul/neg/square/inverse, "
+                "Field/PrimeField methods (arkworks build), Sum/Product/sum_of_products over lists of length 0,1,2,3,17, pow/power with "
+                "0..=5 exponent limbs, subtle select/assign/swap/ct_eq for Fq; operands: all pairs of a 20-element core zoo x all forms, "
+                "a seeded 1/23 sample (thorough: all) of zoo x zoo pairs (0,1,2,p-1,p-2,(p+-1)/2, every 2^k, 2^k-1, p-2^k, limb "
+                "patterns, R, R^2, R^-1, roots of unity), random pairs. Division by zero panicking is documented behaviour and only "
+                "counted. Trivial: all operands in {0,1}." + DISTINCT,
+        "text": "Reference-model monitor over the complete form catalogue; results are compared as canonical bytes.",
+        "note": "trusted: num-bigint. Fq::SENTINEL and non-canonical from_montgomery_limbs inputs are outside the quantifier.",
+    },
+    "C11": {
+        "builds": ["ark", "min"], "level": "exploration", "design_ref": "DESIGN.md §3 C11",
+        "technique": "runtime monitor comparing every serialiser / checked parser / reducer / conversion of the three fields with the "
+                     "integer model on hostile byte strings (lengths 0..=200, p-1, p, p+1, aliases v+kp, high bits) and flag types",
+        "rule": "serialisers (to_bytes(_le), Debug hex, CanonicalSerialize compressed/uncompressed/with flags, into_bigint, BigUint, "
+                "Display) must all emit the canonical LE integer; checked parsers (from_bytes_checked, deserialize_*, from_bigint) must "
+                "accept exactly integers < p; reducers (from_le/be_bytes_mod_order, From<BigUint>, from_random_bytes) must equal the "
+                "integer mod p for every length; flags EmptyFlags/TEFlags/SWFlags round-trip value and flags; Ord = integer order on "
+                "pairs differing in one limb; Hash consistent with ==; From<u8..u128,bool>; FromStr/Display; samplers in range. "
+                "Trivial: values 0/1, the empty string." + DISTINCT,
+        "text": "Integer-model monitor over all conversions; the minimal build covers the inherent subset on the fiat backend.",
+        "note": "FromStr is specified as digits -> integer mod p, anything else Err (ark-ff behaviour); Display of zero may be empty.",
+    },
+    "C12": {
+        "builds": ["ark", "min"], "level": "exploration", "design_ref": "DESIGN.md §3 C12",
+        "subcommands": ["transcript"], "post": "c12_compare",
+        "technique": "offline checker over recorded event logs: both builds execute the same seeded operation stream (16 shards) and "
+                     "write one transcript line per operation; the driver diffs the transcripts line by line",
+        "rule": "one line per executed operation: field parse/reduce/arithmetic forms/inverse/cmp/hash/Debug/sum/product/rand/from-int for "
+                "Fq, Fr, Fp on byte and value zoos; decode verdict + re-encoding for ~6k structured and random strings; slice lengths; "
+                "encode_to_curve, hash_to_curve, sqrt_ratio (as flag and y^2); group programs over the 12 shared binary forms, neg, "
+                "double, 10 shared scalar forms and long-integer multiplication, each step logged as result encoding + identity/equality "
+                "bits. evaluations = lines compared; distinct_nontrivial = distinct transcript lines (measured by hashing) of one build.",
+        "text": "Differential trace check between the two feature configurations over every operation both offer.",
+        "note": "sqrt_ratio is logged as (was_square, y^2): the sign of y is not an observable both builds define under one name.",
+    },
+    "C13": {
+        "builds": ["ark"], "level": "exploration", "design_ref": "DESIGN.md §3 C13",
+        "technique": "runtime monitor over fresh constraint systems: each gadget of a 46-entry catalogue is synthesised honestly on hostile "
+                     "inputs and compared with its native counterpart (satisfied <=> native succeeds, output value = native output); "
+                     "exhaustive enumeration of lazy forcing histories of length <= 4",
+        "rule": "gadget catalogue (names under forms) x inputs: element zoo incl. identity, (0,-1), both coset members, rescalings; pairs "
+                "with 10 partner relations x guard bits; s in {0, 8, q-1, 1, small even, q-8, non-square discriminants, valid, random}; "
+                "field zoo for Elligator/isqrt/sign gadgets; scalar bit strings of length 0,1,2,64,251,253,256 incl. r, r-1, 2^256-1. "
+                "Lazy histories: all 781 sequences of length <= 4 over {compress_to_field, value, cs, clone+compress, clone+value} from "
+                "both start states on several elements: constraints may grow only at the first forcing of a missing form, values stay "
+                "equal to native, clone-free histories forcing the same forms end in identical matrices. No case is trivial." + DISTINCT,
+        "text": "Consistency monitor between circuit and native code; value() is read only on satisfied systems.",
+        "note": "the native functions are themselves monitored by C01-C09; hints are honest here (adversarial hints: C14).",
+        "timeout": {"quick": 1500, "thorough": 14400},
+    },
+    "C14": {
+        "builds": ["ark"], "level": "fault_enumeration", "design_ref": "DESIGN.md §3 C14, §4",
+        "technique": "fault-injecting runtime monitor: a cfg-guarded thread-local hook substitutes the prover's (was_square, y) hint at "
+                     "every isqrt call with every value able to satisfy a case equation; an unchecked constructor supplies off-curve / "
+                     "out-of-group witness coordinates; oracle = satisfied => native accepts and outputs agree",
+        "rule": "for every isqrt-using gadget and input of C13's zoo and every isqrt call index: single substitution of (flag, y) with "
+                "flag in {true,false} and y in {0, +-1, +-sqrt(1/den), +-sqrt(zeta/den), +-honest, zeta*honest, random} (complete over "
+                "satisfying hints for the explored inputs); thorough: all pairs for gadgets with 2-3 calls; witnessed coordinates "
+                "(0,0), (0,-1), 4-torsion points, P+T4 outside 2E, other coset member, random off-curve pairs, inconsistent T. "
+                "A case = (gadget, input, call index, hint)." + DISTINCT,
+        "text": "Fault enumeration of malicious prover hints at the two hooked sites. Known finding (not repaired, see known_findings.json): "
+                "isqrt accepts (true, +-1) when den = 0.",
+        "note": "complete only over hints at the hooked sites and the explored inputs; hints inside ark-r1cs-std (bit decompositions, "
+                "inverses) are not adversarially controlled.",
+    },
+    "C15": {
+        "builds": ["ark"], "level": "exploration", "design_ref": "DESIGN.md §3 C15",
+        "technique": "runtime monitor comparing (variables, constraints, matrix digest) across inputs and setup/proving mode within one run, "
+                     "the instance assignment of public inputs, and Groth16 prove/verify with the repository's pinned keys",
+        "rule": "each catalogue gadget on its input zoo in proving and setup mode: identical (instance, witness, constraint counts, digest "
+                "of A,B,C) for every input (per bit-length for scalar_mul_le, per constant for constant operands); public-input "
+                "allocation: instance assignment == [1, compress_to_field(E)] == to_field_elements(E) == encodeSpec; seven pinned "
+                "circuits re-stated from tests/groth16_gadgets.rs on hostile witnesses (scalars 0, r-1, r, 2^256-1; identity, (0,-1), "
+                "both coset members; r0 = 0, +-1): shapes, validated key deserialisation, query lengths vs matrices, honest proofs "
+                "verify, each proof rejected for >= 5 wrong public inputs. No case is trivial." + DISTINCT,
+        "text": "Shape/transcript monitor; digests are only compared within a run, the pinned keys are the only stored reference.",
+        "note": "proofs are randomised, only accept/reject bits are compared; trusted: ark-groth16.",
+        "timeout": {"quick": 1500, "thorough": 14400},
+    },
+    "C16": {
+        "builds": ["ark"], "level": "exploration", "design_ref": "DESIGN.md §3 C16",
+        "technique": "runtime differential monitor: decaf377::Bls12_377 against the reference ark_bls12_377 engine byte for byte "
+                     "(generators, k*G1, k*G2, both serialisation modes in both directions, Miller loop, pairing, Fp2/Fp6/Fp12 Frobenius "
+                     "maps and arithmetic) plus bilinearity / non-degeneracy laws",
+        "rule": "scalars from the Fq zoo (every 9th member + first 12) and random; per scalar: serialisations of k*G1, k*G2 (compressed and "
+                "uncompressed), cross-engine validated deserialisation in both directions, subgroup checks, cofactor-inverse round trip; "
+                "pairings e(aG1,bG2) incl. a=-b, small a: output bytes, bilinearity, miller_loop bytes, final_exponentiation, "
+                "multi_pairing; random Fp12 elements: frobenius_map(0..11) of Fp12/Fp6/Fp2 components, mul, square, inverse, pow, "
+                "Fp2 sqrt/legendre. Trivial: zero scalars." + DISTINCT,
+        "text": "Differential monitor against the object the property names (the reference engine is already a dependency of /repo).",
+        "note": "trusted: ark-bls12-377 / ark-ec generic code.",
+    },
+    "C17": {
+        "builds": ["ark", "min"], "level": "exploration", "design_ref": "DESIGN.md §3 C17", "exhaustive": True,
+        "subcommands": ["constants"], "post": "c17_constants",
+        "technique": "runtime dump of every public constant through the public API of both builds + python recomputation from the "
+                     "moduli (re-derived from the BLS parameter x): equals-rules and satisfies-rules (generators, roots of unity, "
+                     "non-residues, Frobenius coefficients, cofactors, curve coefficients)",
+        "rule": "exhaustive over the published constants: 124 checks in the arkworks build (inherent + PrimeField/FftField/Field incl. "
+                "SQRT_PRECOMP, decaf TE/Montgomery/CurveConfig constants, Bls12 config, Fp2/Fp6/Fp12 non-residues and all Frobenius "
+                "coefficients, G1/G2 coefficients, generators, cofactors and inverses) and 48 in the minimal build. Generator rule uses "
+                "the complete factorisation of q-1 and r-1 and a time-boxed partial factorisation of p-1 (stated in coverage.notes). "
+                "evaluations = constant checks; distinct_nontrivial = distinct (build, constant) pairs checked.",
+        "text": "Finite, complete check of the published constants against values recomputed from the moduli alone.",
+        "note": "trusted: python big integers, the harness model's r (prime, inside Hasse interval, r*G = identity checked in the "
+                "self-test). Min build's private curve constants are covered behaviourally by C04/C07/C12.",
     },
 }
+
+for _p in PROPS.values():
+    _p.setdefault("assumptions", COMMON_ASSUMPTIONS)
